@@ -23,7 +23,9 @@ PLAIN_NAMES = [b'x', b'y', b'i', b'j', b'player', b'enemies', b'score', b't', b'
                b'hp', b'pos', b'vel', b'state', b'timer', b'idx', b'foo', b'bar', b'baz', b'q9']
 KW_NAMES = [b'endx', b'do_it', b'iffy', b'nots', b'android', b'forx', b'inn', b'_end', b'orb', b'nilx', b'truely',
             b'xend', b'xif', b'breaker', b'returns', b'localx', b'untill', b'whiles', b'thenx', b'elsee', b'gotox',
-            b'functions', b'repeats', b'falsey', b'elseiff']
+            b'functions', b'repeats', b'falsey', b'elseiff',
+            # identifiers that differ from a reserved word only in case (Lua is case-sensitive)
+            b'End', b'IF', b'Not', b'OR', b'In', b'Do', b'True', b'Nil', b'Function', b'THEN', b'Else']
 GLYPH_NAMES = [b'\x80', b'\x8e\x97', b'x\x99', b'\xe3\x81', b'a\x80b', b'\xff\xfe', b'_\x85']
 BUILTIN_NAMES = [b'print', b'spr', b'btn', b'rnd', b'flr', b'add', b'del', b'sin', b'cos', b'mid', b'_init', b'_update',
                  b'_draw', b'sfx', b'pset', b'max', b'min', b'abs', b'cls', b'map']
@@ -732,6 +734,8 @@ class Gen:
         for k in range(n):
             last = k == n - 1
             kinds = ['assign', 'call', 'call', 'local']
+            if d > 0 and not last:
+                kinds.append('oneline_block')      # a block statement written on the line, followed by more statements of the line
             if last:
                 kinds += ['compound', 'return', 'break' if self.loop else 'call', 'goto' if self.labels else 'assign']
                 if d > 0:
@@ -771,6 +775,28 @@ class Gen:
                 i = self.t('name', lb)
                 self.p.names.append(i)
                 stats.append(('StatGoto', lb))
+            elif kk == 'oneline_block' and rng.random() < 0.6:
+                # (`if (c) do ... end` is PICO-8's alternative spelling of `if c then ... end`: a `do` block cannot open the line's body)
+                form = rng.choice(('if', 'while', 'do') if k > 0 else ('if', 'while'))
+                if form != 'do':
+                    self.kw(form.encode())
+                    cond = [self.prefixexp(0, 'var', paren=False)[0]]     # (a condition starting with `(` would read as a short-if)
+                    self.kw(b'then' if form == 'if' else b'do')
+                else:
+                    self.kw(b'do')
+                if form == 'while':
+                    self.loop += 1
+                v = self.prefixexp(0, 'var', paren=False)[0]
+                self.sym(b'=')
+                inner = ('StatAssignment', [v], b'=', [(self.exp(0))])
+                if form == 'while':
+                    self.loop -= 1
+                self.kw(b'end')
+                body = ('Chunk', [inner])
+                stats.append(('StatIf', [(cond, body)], False) if form == 'if' else ('StatWhile', cond, body) if form == 'while'
+                             else ('StatDo', body))
+                self.p.feats.add('shortif-oneline-block')
+                self.p.feats.add('shortif-oneline-' + form)
             elif kk == 'oneline_block':
                 self.kw(b'for')
                 nm = self.name()
